@@ -209,11 +209,21 @@ Proof.
     clear - H3. induction H3; simpl; congruence.
   - destruct kids; simpl; [reflexivity|]. inversion H; subst. f_equal. f_equal; [assumption|].
     clear - H3. induction H3; simpl; congruence.
-  - destruct kids; simpl; [reflexivity|]. f_equal.
-    change (n :: kids) with ([] ++ n :: kids) at 1. change (strip n :: map strip kids) with (map strip (n :: kids)).
-    induction H; simpl; [reflexivity|].
-    replace (is_pad_file (strip x)) with (is_pad_file x) by (destruct x; reflexivity).
-    destruct (is_pad_file x); [assumption|]. rewrite H. f_equal. assumption.
+  - assert (G : forall l, Forall (fun n => deep (strip n) = deep n) l ->
+      (fix go (l : list node) : list dtree :=
+         match l with
+         | [] => []
+         | x :: r => if is_pad_file x then go r else deep x :: go r
+         end) (map strip l) =
+      (fix go (l : list node) : list dtree :=
+         match l with
+         | [] => []
+         | x :: r => if is_pad_file x then go r else deep x :: go r
+         end) l).
+    { induction 1 as [|x l Hx Hl IH]; simpl; [reflexivity|].
+      replace (is_pad_file (strip x)) with (is_pad_file x) by (destruct x; reflexivity).
+      rewrite Hx, IH. reflexivity. }
+    destruct kids; simpl; [reflexivity|]. f_equal. exact (G (n :: kids) H).
 Qed.
 
 Lemma strip_deep a b : strip a = strip b -> deep a = deep b.
